@@ -23,12 +23,12 @@ Qed.
 
 (* a fork (0), a join (5), a dependency on an id outside the list (9), ids out of order *)
 Definition ex_plan : list fetch :=
-  [ {| fid := 5; fdeps := [2; 1] |};
-    {| fid := 1; fdeps := [0] |};
-    {| fid := 2; fdeps := [9; 0] |};
-    {| fid := 7; fdeps := [] |};
-    {| fid := 0; fdeps := [] |};
-    {| fid := 4; fdeps := [7] |} ].
+  [ (mkf 5 [2; 1]);
+    (mkf 1 [0]);
+    (mkf 2 [9; 0]);
+    (mkf 7 []);
+    (mkf 0 []);
+    (mkf 4 [7]) ].
 
 Example ex_plan_wellformed : acyclic ex_plan /\ unique_ids ex_plan.
 Proof. apply plan_checks_sound; vm_compute; reflexivity. Qed.
@@ -36,41 +36,41 @@ Proof. apply plan_checks_sound; vm_compute; reflexivity. Qed.
 Example ex_waves :
   organize false false false ex_plan =
   Done (Sequence
-          [ Parallel [Single {| fid := 0; fdeps := [] |}; Single {| fid := 7; fdeps := [] |}];
-            Parallel [Single {| fid := 1; fdeps := [0] |}; Single {| fid := 4; fdeps := [7] |}];
-            Single {| fid := 2; fdeps := [9; 0] |};
-            Single {| fid := 5; fdeps := [2; 1] |} ]).
+          [ Parallel [Single (mkf 0 []); Single (mkf 7 [])];
+            Parallel [Single (mkf 1 [0]); Single (mkf 4 [7])];
+            Single (mkf 2 [9; 0]);
+            Single (mkf 5 [2; 1]) ]).
 Proof. vm_compute. reflexivity. Qed.
 
 Example ex_scheduler :
   organize true false false ex_plan =
   Done (Parallel
-          [ Sequence [Single {| fid := 0; fdeps := [] |};
-                      Parallel [Single {| fid := 1; fdeps := [0] |}; Single {| fid := 2; fdeps := [9; 0] |}];
-                      Single {| fid := 5; fdeps := [2; 1] |}];
-            Sequence [Single {| fid := 7; fdeps := [] |}; Single {| fid := 4; fdeps := [7] |}] ]).
+          [ Sequence [Single (mkf 0 []);
+                      Parallel [Single (mkf 1 [0]); Single (mkf 2 [9; 0])];
+                      Single (mkf 5 [2; 1])];
+            Sequence [Single (mkf 7 []); Single (mkf 4 [7])] ]).
 Proof. vm_compute. reflexivity. Qed.
 
 (* the comparator on two nodes of the example: 2 transitive dependencies against 4 *)
 Example ex_cmp :
   exists ra rb,
-    node_depends_on 7 ex_plan {| fid := 2; fdeps := [9; 0] |} = Some ra /\
-    node_depends_on 7 ex_plan {| fid := 5; fdeps := [2; 1] |} = Some rb /\
+    node_depends_on 7 ex_plan (mkf 2 [9; 0]) = Some ra /\
+    node_depends_on 7 ex_plan (mkf 5 [2; 1]) = Some rb /\
     length ra = 2 /\ length rb = 4 /\
-    go_cmp ({| fid := 2; fdeps := [9; 0] |}, ra) ({| fid := 5; fdeps := [2; 1] |}, rb) = Lt.
+    go_cmp ((mkf 2 [9; 0]), ra) ((mkf 5 [2; 1]), rb) = Lt.
 Proof. eexists. eexists. vm_compute. repeat split; reflexivity. Qed.
 
 (* validateSchedule accepts a correct nesting and rejects one where a dependency runs alongside *)
 Definition ex_good : tree :=
-  Sequence [Parallel [Single {| fid := 0; fdeps := [] |}; Single {| fid := 7; fdeps := [] |}];
-            Parallel [Single {| fid := 1; fdeps := [0] |}; Single {| fid := 2; fdeps := [9; 0] |};
-                      Single {| fid := 4; fdeps := [7] |}];
-            Single {| fid := 5; fdeps := [2; 1] |}].
+  Sequence [Parallel [Single (mkf 0 []); Single (mkf 7 [])];
+            Parallel [Single (mkf 1 [0]); Single (mkf 2 [9; 0]);
+                      Single (mkf 4 [7])];
+            Single (mkf 5 [2; 1])].
 Definition ex_bad : tree :=
-  Sequence [Parallel [Single {| fid := 0; fdeps := [] |}; Single {| fid := 7; fdeps := [] |};
-                      Single {| fid := 1; fdeps := [0] |}];
-            Parallel [Single {| fid := 2; fdeps := [9; 0] |}; Single {| fid := 4; fdeps := [7] |}];
-            Single {| fid := 5; fdeps := [2; 1] |}].
+  Sequence [Parallel [Single (mkf 0 []); Single (mkf 7 []);
+                      Single (mkf 1 [0])];
+            Parallel [Single (mkf 2 [9; 0]); Single (mkf 4 [7])];
+            Single (mkf 5 [2; 1])].
 Example ex_validate :
   validate_schedule ex_plan (Some ex_good) = true /\ validate_schedule ex_plan (Some ex_bad) = false /\
   respects_deps_b ex_good = true /\ exactly_once_b ex_good ex_plan = true /\
